@@ -24,6 +24,7 @@ func init() {
 			{"C19.bounded-alloc", "no allocation is sized by an unbounded value read from the input", 1, c19BoundedAlloc},
 			{"C19.size-floor", "size - k only behind size >= k", 4, c19SizeFloor},
 			{"C19.slice-guards", "fixed-offset slicing of input bytes only behind a sufficient length", 5, c19SliceGuards},
+			{"C19.index-guards", "constant-index access to input-dependent slices and strings only behind a sufficient length", 1, c19IndexGuards},
 			{"C19.signed-length", "an input value converted to a signed length (io.CopyN, io.LimitReader) is first bounded by MaxInt64", 2, c19SignedLength},
 			{"C19.tainted-loops", "loops bounded by an input value consume input each iteration", 1, c19TaintedLoops},
 			{"C19.exact-reads", "fixed-size fields are read completely (no direct Read in the decoding primitives; byte counts used)", 1, func(c *Ctx) { c.exactReads() }},
@@ -580,4 +581,105 @@ func provenLowerLen(at ssa.Instruction, x ssa.Value) (int64, bool) {
 		pos = cs
 	}
 	return best, found
+}
+
+// c19IndexGuards: the sibling of slice-guards for single elements - x[k] with a constant k on a
+// slice or string whose length depends on the input (the pieces of a strings.Split, a message
+// body, a decoded name) needs len(x) > k established first, by a dominating length comparison, a
+// sufficient make() or ReadN's proven size.  Arrays have their bounds checked by the compiler.
+func c19IndexGuards(c *Ctx) {
+	inputFiles := map[string]bool{"format.go": true, "reader.go": true, "protocol.go": true, "protocolserver.go": true, "index.go": true, "archive.go": true, "types.go": true}
+	n := 0
+	for _, f := range c.libFuncs() {
+		file := c.Fset.Position(f.Pos()).Filename
+		if !inputFiles[file[strings.LastIndex(file, "/")+1:]] {
+			continue
+		}
+		instrs(f, func(_ *ssa.BasicBlock, _ int, ins ssa.Instruction) {
+			var x, idx ssa.Value
+			switch v := ins.(type) {
+			case *ssa.IndexAddr:
+				if _, isSlice := v.X.Type().Underlying().(*types.Slice); !isSlice {
+					return
+				}
+				x, idx = v.X, v.Index
+			case *ssa.Index:
+				if b, isStr := v.X.Type().Underlying().(*types.Basic); !isStr || b.Info()&types.IsString == 0 {
+					return
+				}
+				x, idx = v.X, v.Index
+			default:
+				return
+			}
+			k, isK := idx.(*ssa.Const)
+			if !isK || k.Value == nil {
+				return // a variable index: loops over len(x) etc. are not this rule's business
+			}
+			need := k.Int64() + 1
+			n++
+			key := fmt.Sprintf("%s:index-%d", fnKey(f), k.Int64())
+			ok := false
+			if lb, found := provenLowerLen(ins, x); found && lb >= need {
+				ok = true
+			}
+			if ms, isMk := stripSlices(x).(*ssa.MakeSlice); isMk && !ok {
+				lf := linearLoc(ms.Len)
+				ok = lf.ok && lf.k >= need
+				for _, a := range nonZero(lf.atoms) {
+					if !strings.HasPrefix(a, "len(") || lf.atoms[a] < 0 {
+						ok = false
+					}
+				}
+			}
+			if !ok {
+				if lb, found := readNLower(f, x); found && lb >= need {
+					ok = true
+				}
+			}
+			// a slice of a fixed-size array, or a slice expression with sufficient constant bounds
+			if !ok {
+				if sl, isSl := x.(*ssa.Slice); isSl {
+					if hi, isC := sl.High.(*ssa.Const); isC && hi.Value != nil {
+						lo := int64(0)
+						if l, isC := sl.Low.(*ssa.Const); isC && l.Value != nil {
+							lo = l.Int64()
+						}
+						ok = hi.Int64()-lo >= need
+					}
+					if p, isPtr := sl.X.Type().Underlying().(*types.Pointer); isPtr && sl.High == nil && sl.Low == nil {
+						if arr, isArr := p.Elem().Underlying().(*types.Array); isArr && arr.Len() >= need {
+							ok = true
+						}
+					}
+				}
+			}
+			// strings.Split and friends return at least one piece
+			if !ok && need == 1 {
+				all := true
+				for _, l := range leaves(x) {
+					call, _ := callOf(l)
+					if call == nil {
+						all = false
+						continue
+					}
+					switch callee(call) {
+					case "strings.Split", "strings.SplitAfter", "bytes.Split":
+					case "strings.SplitN", "strings.SplitAfterN", "bytes.SplitN":
+						if cnt, isC := call.Call.Args[2].(*ssa.Const); !isC || cnt.Value == nil || cnt.Int64() == 0 {
+							all = false
+						}
+					default:
+						all = false
+					}
+				}
+				ok = all
+			}
+			c.verdict(ok, key, ins.Pos(), fmt.Sprintf("element %d is read only where len > %d is established", k.Int64(), k.Int64()),
+				fmt.Sprintf("element %d of a slice or string of input-dependent length is read but no dominating check establishes len > %d: malformed input panics with 'index out of range'", k.Int64(), k.Int64()))
+		})
+	}
+	if n == 0 {
+		c.info("index-guards", token.NoPos, "no constant-index access to a slice or string in the decoders")
+		c.ok("index-guards", token.NoPos, "no constant-index access to a slice or string of input-dependent length in the decoders")
+	}
 }
